@@ -56,7 +56,7 @@ Effects(o) ==
        [] o.op = "routes" -> {[rs |-> rs, rep |-> [res |-> "ok", routes |-> Routes(R0)]]}
        [] o.op = "url"    -> {[rs |-> rs, rep |-> [res |-> "ok", url |-> URLResult(R0, o.strict, o.pat, o.params, TRUE)]]}
        [] o.op = "serve"  -> {[rs |-> rs, rep |-> [res |-> "ok", outs |-> ServeOutcomes(R0, o.method, o.path), R |-> R0, later |-> {},
-                                                   canon |-> R0.addOnly \/ WitValid(R0, o.wit, o.wps, o.path)]]}
+                                                   canon |-> R0.addOnly \/ WitValid(R0, o.wit, o.wps, o.path) \/ o.path \in {"*", ""}]]}      \* (the root entry has one outcome in every history)
        \* a quiescent group (routers g?a: Hosts a.com, g?b: path version v1): the reply is fixed by the request alone
        [] o.op = "gserve" -> {[rs |-> rs, rep |-> [res |-> "ok",
                                  want |-> IF o.host = "a.com" THEN [rname |-> o.inst \o "a", urlPath |-> o.path]
